@@ -91,6 +91,7 @@ struct ReqLedger {
     done: bool,
     sent_at: u64,
     to: u64,
+    on_wire: bool,
 }
 
 pub struct HandlerRunner {
@@ -650,6 +651,9 @@ impl HandlerRunner {
                     if let Some(pt) = hf::aead_decrypt(&k, p.nonce, &p.message, &aad) {
                         if let Ok(Message::Request(rq)) = Message::decode(&pt) {
                             let rn = self.name_rid(rq.id.as_bytes(), from);
+                            if let Some(l) = self.ledger.reqs.get_mut(&(from, rn)) {
+                                l.on_wire = true;
+                            }
                             if rn >= 1_000_000 {
                                 self.ledger.internal.entry((from, rn)).or_insert((self.now_ms, dst_idx, false));
                             }
@@ -745,6 +749,22 @@ impl HandlerRunner {
         for (a, n) in &map {
             if *n == 0 {
                 out.push(format!("!MON C13 zero-entry addr={}", a));
+            }
+        }
+        // under-count: every external request seen on the wire and not yet terminated is an
+        // outstanding item towards its peer's address
+        let mut on_wire: HashMap<SocketAddr, usize> = HashMap::new();
+        for ((n, _), l) in self.ledger.reqs.iter() {
+            if *n == idx && l.on_wire && !l.done && l.failures == 0 {
+                if let Some(a) = self.nodes.iter().find(|x| x.idx == l.to).map(|x| x.addr) {
+                    *on_wire.entry(a).or_insert(0) += 1;
+                }
+            }
+        }
+        for (a, w) in on_wire {
+            let have = map.get(&a).copied().unwrap_or(0);
+            if have < w {
+                out.push(format!("!MON C13 fewer-exemptions-than-outstanding-requests node={} addr={} have={} outstanding>={}", idx, a, have, w));
             }
         }
         let _ = want;
@@ -1314,7 +1334,26 @@ pub fn gen_case(rng: &mut Rng, tier: &str, profile: &str, stats: &mut Stats) -> 
         return ops;
     }
     let adversarial = profile == "C01" || profile == "C02" || profile == "C03" || rng.chance(1, 2);
-    if rng.chance(1, 3) {
+    if rng.chance(1, 8) {
+        // directed prefix: dial without a record; the peer answers the request but not the internal
+        // record request, which times out; a new request goes out and stays unanswered; then the
+        // late answer to the old record request arrives
+        stats.bump("gen.cases.directed-late-enr-answer");
+        let x = rng.range(1, n);
+        let y = other(rng, x);
+        ops.push(format!("hreq {} {} raw {} 1", x, y, rid)); rid += 1;
+        ops.push("hdel next".into());
+        ops.push(format!("hwru {} next {}", y, if rng.chance(1, 2) { "none" } else { "known" }));
+        for _ in 0..4 { ops.push("hdel next".into()); }
+        ops.push(format!("hresp {} 0 auto", y));
+        ops.push("hdel next".into());
+        ops.push("hadv 450".into());
+        ops.push(format!("hreq {} {} enr {} 1", x, y, rid)); rid += 1;
+        ops.push(format!("hresp {} 1 nodes1", y));
+        ops.push("hdel last".into());
+        ops.push("hadv 20".into());
+        emitted += 9;
+    } else if rng.chance(1, 3) {
         // directed prefix: dial a node without knowing its record, let everything be answered
         // honestly, then issue another request while the first exchange is a while ago
         stats.bump("gen.cases.directed-raw-contact");
